@@ -276,8 +276,11 @@ def draw_attr_value(draw, a, g, op=None):
             return draw_datetime(draw), True
         return draw(nums(p)), True
     if k == 'generic':
-        mode = draw(st.integers(0, 2))
-        if mode == 0:
+        mode = draw(st.integers(0, 3))
+        if mode == 3 and not p.number_pool:
+            # integers and floats in one list (one representation code has to hold them all)
+            elem = lambda: draw(st.one_of(st.integers(-2 ** 31, 2 ** 31 - 1), floats(p)))
+        elif mode == 0:
             elem = lambda: '#' + draw_text(draw, p)      # never parses as a number
         elif mode == 1:
             elem = lambda: draw(st.integers(-2 ** 31, 2 ** 31 - 1))
